@@ -8,6 +8,12 @@ META = {
         "note": "Trusted: Lean kernel (axioms propext, Classical.choice, Quot.sound only), the hand-written model's tie to the code is differential (bounded by generator coverage reported in evidence), harness VM in place of ref-fvm, signature/hash/extra-call results as environment inputs. Completeness direction of acceptance (conditions => accept) is not yet a theorem.",
         "technique": "Lean 4 invariant/decision-logic proofs + differential correspondence of model and real actor",
     },
+    "C19": {
+        "text": "Lean 4 refinement theorem impl_refines_spec: a model of the EVM actor's System cache (slots/transient cache, dirty flag = saved_state_root, flush before every send, reload after a successful send, VM rollback of failed sends, transient-data lifespan (origin, nonce), tombstone/is_dead) is observationally equal to Ethereum journaled-state semantics for EVERY call-tree script (CALL/STATICCALL/DELEGATECALL, reverts and failures at any depth, storage, transient storage, value transfers, logs, SELFDESTRUCT; any number of contracts, any nesting/re-entrancy) over any sequence of top-level messages with distinct (origin, nonce): every read value, every sub-call flag, final storage, destroyed set, balances, events. Named corollaries (inner_writes_visible_after_return, outer_writes_visible_to_inner, reverted_call_leaves_no_trace, transient_shared_within_message, transient_empty_next_message, selfdestruct_deferred, delegatecall_uses_caller_context) hold from an arbitrary quiescent state. Both layers are tied to the code on every run: generated systems of 2-4 real EVM contracts (a script-interpreter contract in raw bytecode) execute the same call-tree scripts in the harness VM; observation log, storage (GetStorageAt), GetBytecode, balances and committed events are compared with both Lean layers and with an independent journaled-state reference implementation in Rust (the oracle).",
+        "design_ref": "DESIGN.md §7 C19",
+        "note": "Trusted: Lean kernel (axioms propext, Quot.sound, Classical.choice only); the spec layer is my transcription of the EVM semantics (with the FEVM's SELFDESTRUCT choices); the model-to-code tie is differential (bounded by generator coverage reported in the evidence); the harness VM stands in for ref-fvm (rollback of failed sends, read-only propagation, per-message nonce). CREATE/CREATE2-in-tree and Resurrect are not modelled and not generated.",
+        "technique": "Lean 4 simulation/refinement proof (mutual structural induction over nested call-tree scripts) + differential correspondence of both model layers with real EVM contracts + independent journaled-state oracle",
+    },
 }
 
 ALL = ["C%02d" % i for i in range(1, 21)]
